@@ -47,9 +47,14 @@ contract("usim._core.waitq.HQWaitQueue.__init__",
          modifies=["HQWaitQueue._data@self", "HQWaitQueue._keys@self", "WaitQueue.qlen@self"],
          props=["C01", "C02"])
 
+# ensures[0] is a lemma for ensures[1] (chain_ensures: proved first, then usable): it names the witness date of a non-empty
+# key heap -- its first element -- as a ground term.  Without it the solver has to guess that witness through two nested
+# quantifiers (keys_are_dates, the bag axioms), which it did within anything between 1 s and not at all.
 contract("usim._core.waitq.HQWaitQueue.__bool__", pure=True,
          params={"self": REF("HQWaitQueue")}, returns=BOOL,
-         ensures=["result == " + NONEMPTY], modifies=[], props=["C01", "C15"])
+         ensures=["implies(len(self._keys) >= 1, bag(self._keys)[self._keys[0]] >= 1 and self._keys[0] in self._data "
+                  "and self.qlen[self._keys[0]] >= 1)",
+                  "result == " + NONEMPTY], chain_ensures=True, modifies=[], props=["C01", "C15"])
 
 contract("usim._core.waitq.HQWaitQueue.push",
          params={"self": REF("HQWaitQueue"), "key": REAL, "item": ACT},
